@@ -26,7 +26,6 @@ import (
 var atomAliases = map[string]string{
 	"Vector.IsFixed()":                                           "Vector.Length != nil",
 	"Array.Dimensions != nil":                                    "Array.HasKnownNumberOfDimensions()",
-	"GeneralizedType.Cases.HasNullOption()":                      "GeneralizedType.Cases.IsOptional()", // only asked after IsSingle / for non-unions in the plan rows
 	"len(GeneralizedType.Cases) == 1":                            "GeneralizedType.Cases.IsSingle()",
 	"GeneralizedType.Dimensionality != nil":                      "type(GeneralizedType.Dimensionality)!=nil",
 	"EnumDefinition.BaseType != nil":                             "EnumDefinition.BaseType != nil",
@@ -547,9 +546,11 @@ var scalarShapes = []struct {
 	asg  map[string]string
 	want string
 }{
-	{"single", map[string]string{"GeneralizedType.Cases.IsSingle()": "true", "GeneralizedType.Cases.IsOptional()": "false", "GeneralizedType.Cases.IsUnion()": "false"}, "rec(GeneralizedType.Cases[0].Type)"},
-	{"optional", map[string]string{"GeneralizedType.Cases.IsSingle()": "false", "GeneralizedType.Cases.IsOptional()": "true", "GeneralizedType.Cases.IsUnion()": "false"}, "OPTIONAL(elem=rec(GeneralizedType.Cases[1].Type))"},
-	{"union", map[string]string{"GeneralizedType.Cases.IsSingle()": "false", "GeneralizedType.Cases.IsOptional()": "false", "GeneralizedType.Cases.IsUnion()": "true"}, "UNION(cases=each[i](rec(TypeCase.Type)) over range GeneralizedType.Cases)"},
+	{"single", map[string]string{"GeneralizedType.Cases.IsSingle()": "true", "GeneralizedType.Cases.IsOptional()": "false", "GeneralizedType.Cases.IsUnion()": "false", "GeneralizedType.Cases.HasNullOption()": "false"}, "rec(GeneralizedType.Cases[0].Type)"},
+	{"optional", map[string]string{"GeneralizedType.Cases.IsSingle()": "false", "GeneralizedType.Cases.IsOptional()": "true", "GeneralizedType.Cases.IsUnion()": "false", "GeneralizedType.Cases.HasNullOption()": "true"}, "OPTIONAL(elem=rec(GeneralizedType.Cases[1].Type))"},
+	{"union", map[string]string{"GeneralizedType.Cases.IsSingle()": "false", "GeneralizedType.Cases.IsOptional()": "false", "GeneralizedType.Cases.IsUnion()": "true", "GeneralizedType.Cases.HasNullOption()": "false"}, "UNION(cases=each[i](rec(TypeCase.Type)) over range GeneralizedType.Cases)"},
+	// a union that has a null case next to two or more others ([null, A, B]) is a union, not an optional
+	{"union+null", map[string]string{"GeneralizedType.Cases.IsSingle()": "false", "GeneralizedType.Cases.IsOptional()": "false", "GeneralizedType.Cases.IsUnion()": "true", "GeneralizedType.Cases.HasNullOption()": "true"}, "UNION(cases=each[i](rec(TypeCase.Type)) over range GeneralizedType.Cases)"},
 }
 
 var dimShapes = []struct {
